@@ -27,7 +27,7 @@ NOT decided: the bound on live bytes while streaming (depends on anchor counts a
 
 ASSUMPTIONS = ['Arc/Box free their contents on the last drop', 'no Rc/RefCell cycle can be built from types that own no reference-counted pointer']
 
-FLOORS = {'R10.1': 3, 'R10.2': 5, 'R10.3': 2, 'R10.4': 3, 'R10.5': 3, 'R10.6': 4}
+FLOORS = {'R10.1': 3, 'R10.2': 5, 'R10.3': 2, 'R10.4': 3, 'R10.5': 3, 'R10.6': 20}
 
 CRATES = ['owning_iovec', 'hcobs', 'rough_tlv', 'sliding_deque', 'vouched_time']
 LEAKY = ('mem::forget', 'ManuallyDrop', 'Box::leak', 'Box::into_raw', 'Arc::into_raw', 'Rc::into_raw', 'Vec::leak', 'Vec::into_raw_parts', 'Arc::increment_strong_count',
@@ -198,6 +198,8 @@ def r10_6(cx):
     sub = cx.__class__(cx.prog, cx.profile, cx.prop)
     sub.rule = 'R6.3'
     c06.r6_3(sub)
+    sub.rule = 'R6.2'   # a record being skipped is not accumulated in the reader's decoder
+    c06.r6_2(sub)
     sub.rule = 'R5.7'
     c05.r5_7(sub)
     for rec in sub.records:
